@@ -108,7 +108,21 @@ def _ind(lines, n=4):
 
 def statement(draw, env):
     """-> list of source lines; updates env."""
-    c = draw(st.integers(0, 15))
+    c = draw(st.integers(0, 17))
+    if c == 16:
+        # annotations are evaluated when the function is defined / the assignment runs (no 'from __future__ import annotations')
+        f, v, w = env.fresh('f'), env.fresh('v'), env.fresh('w')
+        env.kinds.add('annotations')
+        ann = _name(draw, env, env.ints) if env.ints else 'int'
+        lines = [f'def {f}(a: int, b: {ann} = 0) -> int:', '    return a + b',
+                 f"{v} = (1 if {f}.__annotations__['a'] is int else 0) + (2 if isinstance({f}.__annotations__['b'], (int, type)) else 0)",
+                 f'{w}: {iexpr(draw, env, 2)} = {draw(INT_LIT)}']
+        env.funcs.append(f)
+        env.ints += [v, w]
+        env.pool_of[f] = env.pool_of[v] = env.pool_of[w] = 'own'
+        return lines
+    if c == 17:
+        c = draw(st.integers(0, 15))
     if c <= 1:
         # plain assignment, sometimes shadowing a config key / symbol / builtin name
         shadow = [n for n in env.ints if env.pool_of.get(n) in ('config', 'symbol')] + [b for b in SHADOWABLE]
